@@ -145,6 +145,29 @@ TABLE = {
 }
 
 
+def base_tests_identity(b):
+    """the arm of `match self.next` for None (the trivial group) decides membership by comparing the pairs of
+    the permutation: an all/any adaptor, or a loop / comparison whose eq/ne condition mentions the queried
+    permutation — anything but a constant answer"""
+    for sb in b.switch_blocks():
+        r = b.role_of_operand(b.blocks[sb]["term"]["discr"])
+        if r[0] != "discr" or not role_mentions_field(r[1], "next"):
+            continue
+        none_e = C.variant_edges(b, sb, 0)
+        some_e = C.variant_edges(b, sb, 1)
+        if not none_e:
+            continue
+        region = b.reach(none_e, avoid=set(some_e))
+        for c in b.calls:
+            if c.bb in region and c.callee and c.callee.name in ("all", "any", "eq", "ne", "is_identity") and not b.blocks[c.bb]["cleanup"]:
+                return True
+        for e, cond in C.all_cond_edges(b):
+            if e[1] in region and cond[0] in ("eq", "ne"):
+                return True
+    return False
+
+
+
 @rule("G1", doc="convention table: operand kinds of every composition in the stabiliser chain")
 def g1(ctx):
     crate = ctx.lib()
@@ -205,7 +228,7 @@ def g1(ctx):
             ctx.check(ok, "sift-recursion:" + name, "%s recurses into next.g with the sifted permutation" % name,
                       "%s recurses with receiver %s and argument %s" % (name, role_str(r0), role_str(r1)), where_of(b, c.bb))
         # base case: identity test x == y on all pairs
-        base = [c for c in b.all_calls() if c.callee and c.callee.name == "all"]
+        base = base_tests_identity(b)
         ctx.check(bool(base), "sift-base:" + name, "%s's base case tests that the remaining permutation is the identity" % name,
                   "%s has lost its identity test in the base case (every permutation is a member of the trivial group)" % name, where_of(b))
 
@@ -359,3 +382,54 @@ def g4(ctx):
 
 
 RULES.append(g4)
+
+
+@rule("G6", doc="completeness of the product loops: every (coset representative, generator) pair contributes, with no skip")
+def g6(ctx):
+    crate = ctx.lib()
+    # schreiers_lemma: out gets exactly r s (rs-bar)^-1 for all r in ot, s in generators
+    b = fn(crate, "schreiers_lemma")
+    loops = C.iterator_loops(b)
+    kinds = {}
+    for l in loops:
+        k = kind_of(crate, b, l[1])
+        kinds[kstr(k)] = l
+    ok = "OTMAP" in kinds and "GENSET" in kinds
+    ctx.check(ok and all(C.loop_exhaustive(b, l) for l in loops), "schreier-loops", "schreiers_lemma ranges over all of ot and all generators",
+              "schreiers_lemma no longer ranges over every orbit-table entry and every generator (%s)" % sorted(kinds), where_of(b))
+    ins = [c for c in b.calls if c.callee and c.callee.name == "insert" and "HashSet" in (c.callee.impl_self or "") and not b.blocks[c.bb]["cleanup"]]
+    ctx.floor("inserts into the Schreier generator set", len(ins), 1)
+    for i, c in enumerate(ins):
+        v = kind_of(crate, b, b.role_of_operand(c.args[1]))
+        ctx.check(kstr(v) == "COMP(COMP(OT, GEN), INV(OT))", "schreier-element:%d" % i, "the inserted element is r s (rs-bar)^-1",
+                  "schreiers_lemma inserts %s into the stabiliser's generator set; every element must be r.compose(s).compose(ot[(rs)[stab]].inverse()) — inserting a generator as it is (or skipping the conjugation over the transversal) yields a proper subgroup of the stabiliser" % kstr(v), where_of(b, c.bb))
+        C.check_only_allowed_skips(ctx, b, c.bb, [], "schreier:%d" % i, "contributing a Schreier generator")
+    # build_ot: for every generator and every known orbit entry the image is recorded unless already present
+    b = fn(crate, "build_ot")
+    ins = [c for c in b.calls if c.callee and c.callee.name == "insert" and len(c.args) == 3 and "HashMap<slot::Slot" in optype(b, c.args[0]) and not b.blocks[c.bb]["cleanup"]]
+    inner = [c for c in ins if strip_role(b.role_of_operand(c.args[2]))[0] == "call" and strip_role(b.role_of_operand(c.args[2]))[1] == "compose"]
+    ctx.floor("orbit-table extensions in build_ot", len(inner), 1)
+    for c in inner:
+        C.check_only_allowed_skips(ctx, b, c.bb, [("false", lambda t, cond: t.startswith("contains_key("))], "build_ot", "extending the orbit table")
+    ls = [l for l in C.iterator_loops(b)]
+    ctx.check(len(ls) >= 2 and all(C.loop_exhaustive(b, l) for l in ls), "build-ot-loops", "build_ot ranges over all generators and all current orbit entries", "a loop of build_ot can stop early", where_of(b))
+    # fixpoint: the outer loop ends only when a round added nothing
+    okfix = False
+    for sb in b.switch_blocks():
+        t = b.blocks[sb]["term"]
+        r = b.role_of_operand(t["discr"])
+        if r[0] == "bin" and r[1] in ("Eq", "Ne") and role_mentions_call(r[2], "len") and role_mentions_call(r[3], "len"):
+            okfix = True
+    ctx.check(okfix, "build-ot-fixpoint", "build_ot repeats until the table stops growing (len before == len after)", "build_ot no longer iterates to a fixpoint", where_of(b))
+    # all_perms: the product left x right is complete
+    b = fn(crate, "all_perms", GRP)
+    ext = [c for c in b.calls if c.callee and c.callee.name in ("extend", "push") and not b.blocks[c.bb]["cleanup"]]
+    for i, c in enumerate(ext):
+        C.check_only_allowed_skips(ctx, b, c.bb, [], "all_perms:%d" % i, "emitting the elements of a coset")
+    ls = C.iterator_loops(b)
+    ctx.check(bool(ls) and all(C.loop_exhaustive(b, l) for l in ls), "all-perms-loops", "all_perms ranges over every coset representative", "all_perms can stop early", where_of(b))
+    bad = [x[1] for c in ext for x in role_walk(b.role_of_operand(c.args[1])) if isinstance(x, tuple) and x[0] == "call" and x[1] in ("filter", "take", "skip", "step_by", "take_while", "skip_while", "filter_map")]
+    ctx.check(not bad, "all-perms-unfiltered", "every stabiliser element is composed with every representative", "all_perms drops elements through %s" % bad, where_of(b))
+
+
+RULES.append(g6)
